@@ -6,6 +6,7 @@ import io
 import os
 import shutil
 import tempfile
+import warnings
 
 from sim import corpus, prng, world
 
@@ -184,6 +185,7 @@ def execute(ctx, h):
     res = {"events": [], "probes": {"pipe." + h["pipe"]: 1}, "states": [], "known": [], "nontrivial": True}
     try:
         with world.isolated(cwd=scratch, env={"SOURCE_DATE_EPOCH": "1700000000"}):
+            warnings.simplefilter("ignore")
             try:
                 out = run_pipe(h, scratch)
                 res["events"].append([h["pipe"], prng.bdigest(out), len(out)])
